@@ -597,22 +597,30 @@ func (p *printer) print(v px.Value) {
 			w(")")
 		}
 	case *types.Regexp:
-		leaf("rx", true, t.SerializationString())
+		leaf("rx", true, encOf(t))
 	case *types.SemVer:
-		leaf("sv", true, t.SerializationString())
+		leaf("sv", true, encOf(t))
 	case *types.SemVerRange:
-		leaf("svr", true, t.SerializationString())
+		leaf("svr", true, encOf(t))
 	case types.Timespan:
-		leaf("ts", false, t.SerializationString())
+		leaf("ts", false, encOf(t))
 	case *types.Timestamp:
-		leaf("tm", true, t.SerializationString())
+		leaf("tm", true, encOf(t))
 	case *types.UriValue:
-		leaf("uri", true, t.SerializationString())
+		leaf("uri", true, encOf(t))
 	case px.Type:
 		leaf("ty", false, t.String())
 	default:
 		w("(? " + sx.Str(fmt.Sprintf("%T", v)).Atom + ")")
 	}
+}
+
+// encOf is SerializationString() where the value has one (public API only: the interface, not the concrete method)
+func encOf(v px.Value) string {
+	if ss, ok := v.(px.SerializeAsString); ok && ss.CanSerializeAsString() {
+		return ss.SerializationString()
+	}
+	return "!" + v.String()
 }
 
 // normalize replaces every Sensitive by a marker array holding its content so that px.Equals compares
@@ -752,7 +760,14 @@ func ser(c px.Context, o opts, cp caps, vs sx.Sexp) core.Result {
 	for n, lv := range bld.memo {
 		if n.kind == "l" {
 			enc, disp := "", ""
-			if err := safely(func() { enc = lv.(px.SerializeAsString).SerializationString(); disp = lv.String() }); err != nil {
+			if err := safely(func() {
+				enc = n.s
+				// a leaf without SerializeAsString is serialized some other way: the round trip decides
+				if ss, ok := lv.(px.SerializeAsString); ok && ss.CanSerializeAsString() {
+					enc = ss.SerializationString()
+				}
+				disp = lv.String()
+			}); err != nil {
 				return fail("leaf-codec", "leaf-codec", fmt.Sprintf("%s %q: %v", n.lk, n.s, err))
 			}
 			if enc != n.s || disp != n.disp {
